@@ -333,8 +333,107 @@ static void run_raw_case(uint64_t seed, unsigned long icase, const std::string& 
     if (icase % 997 == 0 && !g_case_violated) { printf("H {\"case\":\"%s\",\"oplog\":", g_casedesc); vjson_str(stdout, g_log.p); printf("}\n"); }
 }
 
+// ---- C14: a raw file beyond 4 GiB ----------------------------------------------------------------------
+// Frames of 0.3-1.2 GiB whose pixels are zero except for the first and last 4 KiB, one frame per packet; the
+// interposed pwrite stores only the first and last 8 KiB of each (the file is sparse on disk but byte-identical
+// to a full write).  Checked: exact size, header + first and last pixel block of every frame at the sum of the
+// preceding frame sizes, and no data anywhere else (SEEK_DATA).
+static void run_rawbig_case(uint64_t seed, unsigned long icase, const std::string& dir)
+{
+    vrng g; vrng_seed(&g, seed, 0x1c, icase);
+    snprintf(g_casedesc, sizeof g_casedesc, "rawbig %llu %lu 1", (unsigned long long)seed, icase);
+    vbuf_reset(&g_log); g_case_violated = 0;
+    IO.short_writes = 0; IO.site_kind = 0; IO.mode = F_NONE; IO.sparse = 1;
+    struct Storage* st = open_device(BasicDevice_Storage_Raw);
+    if (!st) { violation("C14", "open-failed", "storage_open(raw) failed"); return; }
+    char name[64]; snprintf(name, sizeof name, "big%lu.raw", icase);
+    std::string real, uri = uri_spelling(&g, dir, name, &real);
+    struct StorageProperties props; memset(&props, 0, sizeof props);
+    struct PixelScale ps = { 1, 1 };
+    storage_properties_init(&props, 0, uri.c_str(), uri.size() + 1, 0, 0, ps, 0);
+    vbuf_printf(&g_log, "| set(%s) start ", uri.c_str());
+    enum DeviceStatusCode rc = storage_set(st, &props);
+    storage_properties_destroy(&props);
+    if (rc != Device_Ok || storage_start(st) != Device_Ok) { violation("C14", "start-failed", "set/start failed for %s", uri.c_str()); storage_close(st); return; }
+    int type = vrng_chance(&g, 1, 2) ? SampleType_u8 : SampleType_u16;
+    uint32_t w = (uint32_t)vrng_range(&g, 16384, 46000);
+    uint64_t target = (uint64_t)vrng_range(&g, 300, 1200) << 20;
+    uint32_t h = (uint32_t)(target / ((uint64_t)w * k_bpp[type]));
+    size_t img = (size_t)w * h * k_bpp[type];
+    size_t nbytes = align8(sizeof(struct VideoFrame) + img);
+    int nframes = (int)(((4400ull << 20) + nbytes - 1) / nbytes) + (int)vrng_range(&g, 0, 3);
+    uint8_t* fb = (uint8_t*)mmap(0, nbytes, PROT_READ | PROT_WRITE, MAP_PRIVATE | MAP_ANONYMOUS | MAP_NORESERVE, -1, 0);
+    if (fb == MAP_FAILED) { printf("X {\"case\":\"%s\",\"what\":\"mmap of %zu bytes failed\"}\n", g_casedesc, nbytes); storage_close(st); return; }
+    const size_t HB = sizeof(struct VideoFrame) + 4096; // what is kept of the beginning of each frame
+    std::vector<std::vector<uint8_t>> heads, tails;
+    bool ok = true;
+    for (int i = 0; i < nframes && ok; ++i) {
+        struct VideoFrame* f = (struct VideoFrame*)fb;
+        memset(f, 0, sizeof *f);
+        f->bytes_of_frame = nbytes;
+        f->shape.dims.channels = 1; f->shape.dims.width = w; f->shape.dims.height = h; f->shape.dims.planes = 1;
+        f->shape.strides.channels = 1; f->shape.strides.width = 1; f->shape.strides.height = w; f->shape.strides.planes = (int64_t)w * h;
+        f->shape.type = (enum SampleType)type;
+        f->frame_id = (uint64_t)i; f->hardware_frame_id = 700 + (uint64_t)i; f->timestamps.hardware = vrng_u64(&g) >> 8; f->timestamps.acq_thread = vrng_u64(&g) >> 8;
+        for (size_t k = 0; k < 4096; ++k) { f->data[k] = (uint8_t)vrng_u64(&g); f->data[img - 4096 + k] = (uint8_t)vrng_u64(&g); }
+        heads.emplace_back(fb, fb + HB);
+        tails.emplace_back(fb + nbytes - 4200, fb + nbytes);
+        vbuf_printf(&g_log, "append(1 frame,%zu B) ", nbytes);
+        ++C.appends;
+        if (storage_append(st, f, (const struct VideoFrame*)(fb + nbytes)) != Device_Ok) { violation("C14", "append-failed", "storage_append of frame %d (%zu bytes) failed without an injected fault", i, nbytes); ok = false; }
+    }
+    munmap(fb, nbytes);
+    vbuf_printf(&g_log, "stop ");
+    if (ok && storage_stop(st) != Device_Ok) { violation("C14", "stop-failed", "storage_stop failed"); ok = false; }
+    if (ok) {
+        int fd = __real_open(real.c_str(), O_RDONLY);
+        struct stat sb; memset(&sb, 0, sizeof sb);
+        if (fd < 0 || fstat(fd, &sb) != 0) violation("C14", "file-missing", "no file at %s", real.c_str());
+        else if ((uint64_t)sb.st_size != (uint64_t)nframes * nbytes)
+            violation("C14", "raw-size-mismatch", "file has %llu bytes, %d frames of %zu bytes (%llu bytes) were appended", (unsigned long long)sb.st_size, nframes, nbytes,
+                      (unsigned long long)nframes * nbytes);
+        else {
+            std::vector<uint8_t> got(HB > 4200 ? HB : 4200);
+            for (int i = 0; i < nframes && !g_case_violated; ++i) {
+                off_t at = (off_t)((uint64_t)i * nbytes);
+                if (pread(fd, got.data(), HB, at) != (ssize_t)HB || memcmp(got.data(), heads[(size_t)i].data(), HB) != 0)
+                    violation("C14", "raw-content-mismatch", "frame %d: header/first pixels at offset %llu differ from what was appended", i, (unsigned long long)at);
+                else if (pread(fd, got.data(), 4200, at + (off_t)nbytes - 4200) != 4200 || memcmp(got.data(), tails[(size_t)i].data(), 4200) != 0)
+                    violation("C14", "raw-content-mismatch", "frame %d: last pixels before offset %llu differ from what was appended", i, (unsigned long long)(at + (off_t)nbytes));
+            }
+            // nothing but the kept blocks may hold data: everything else was zeros in the source and is a hole in the file
+            off_t pos = 0;
+            while (!g_case_violated) {
+                off_t a = lseek(fd, pos, SEEK_DATA);
+                if (a < 0) break;
+                off_t b = lseek(fd, a, SEEK_HOLE);
+                for (off_t x = a; x < b; x += 4096) {
+                    uint64_t in = (uint64_t)x % nbytes; // position inside its frame
+                    if (in >= 8192 + 4096 && in + 4096 + 8192 <= nbytes) {
+                        violation("C14", "raw-content-mismatch", "data at offset %llu, in the middle of frame %llu where only zeros were appended", (unsigned long long)x, (unsigned long long)((uint64_t)x / nbytes));
+                        break;
+                    }
+                }
+                pos = b;
+            }
+            ++C.files; ++C.big_files; C.frames += (unsigned long)nframes; C.bytes += (unsigned long)nframes * nbytes; ++C.cycles;
+        }
+        if (fd >= 0) __real_close(fd);
+    }
+    unlink(real.c_str());
+    storage_close(st);
+    if (!IO.owned->empty() && !g_case_violated) violation("C16", "descriptor-left-open", "%zu descriptor(s) still open after device close", IO.owned->size());
+    for (int fd : *IO.owned) __real_close(fd);
+    IO.owned->clear();
+    IO.sparse = 0;
+    ++C.cases; vset_add(&g_sigs, vhash_add(vhash_init(), 0xb17ull * 64 + (uint64_t)nframes * 2 + (uint64_t)(type == SampleType_u16)));
+}
+
 // ---- C15: tiff / tiff-json -----------------------------------------------------------------------------
-static const char* k_meta[] = { nullptr, "", "{}", "{\"hello\":\"world\"}", "{\"a\":{\"b\":[1,2,{\"c\":null}],\"d\":\"x y\"},\"n\":-1.5e3}" };
+static const char* k_meta[] = { nullptr, "", "{}", "{\"hello\":\"world\"}", "{\"a\":{\"b\":[1,2,{\"c\":null}],\"d\":\"x y\"},\"n\":-1.5e3}",
+                                // user text is data, not a format: percent signs and conversion look-alikes must come back unchanged
+                                "{\"laser\":\"50% of max\",\"gain\":\"100%\"}", "{\"fmt\":\"%d %i %x %5.2f %%\",\"path\":\"C:\\\\data\\\\run%03d\"}" };
+static const int k_nmeta = 7;
 
 static void json_escape(FILE* f, const std::string& s) { vjson_str(f, s.c_str()); }
 
@@ -354,7 +453,7 @@ static void run_tiff_case(uint64_t seed, unsigned long icase, const std::string&
         char name[64]; snprintf(name, sizeof name, "c%lu_%d%s", icase, cy, json_kind ? ".dir" : ".tif");
         std::string real, uri = uri_spelling(&g, dir, name, &real);
         std::string big;
-        const char* meta = k_meta[vrng_below(&g, 5)];
+        const char* meta = k_meta[vrng_below(&g, k_nmeta)];
         if (cy > 0 && vrng_chance(&g, 1, 2)) meta = vrng_chance(&g, 1, 2) ? nullptr : ""; // metadata changes to empty
         if (meta && vrng_chance(&g, 1, 8)) { // ~8 KiB of metadata
             big = "{\"big\":\""; big.append((size_t)vrng_range(&g, 3000, 9000), 'm'); big += "\"}"; meta = big.c_str();
@@ -428,7 +527,7 @@ static void run_tiffbig_case(uint64_t seed, unsigned long icase, const std::stri
     if (!st) { violation("C15", "open-failed", "storage_open failed"); return; }
     char name[64]; snprintf(name, sizeof name, "big%lu%s", icase, json_kind ? ".dir" : ".tif");
     std::string real, uri = uri_spelling(&g, dir, name, &real);
-    const char* meta = k_meta[vrng_range(&g, 2, 4)];
+    const char* meta = k_meta[vrng_range(&g, 2, k_nmeta - 1)];
     struct PixelScale ps = { 1, 1 };
     struct StorageProperties props; memset(&props, 0, sizeof props);
     storage_properties_init(&props, 0, uri.c_str(), uri.size() + 1, meta, strlen(meta) + 1, ps, 0);
@@ -570,7 +669,7 @@ int main(int argc, char** argv)
     g_loud = getenv("VERIF_LOUD") != 0;
     g_driver = acquire_driver_init_v0(reporter);
     const char* mode = argv[1];
-    if (!strcmp(mode, "raw") || !strcmp(mode, "tiff") || !strcmp(mode, "tiffbig")) {
+    if (!strcmp(mode, "raw") || !strcmp(mode, "tiff") || !strcmp(mode, "tiffbig") || !strcmp(mode, "rawbig")) {
         uint64_t seed = strtoull(argv[2], 0, 10);
         unsigned long first = strtoul(argv[3], 0, 10), count = strtoul(argv[4], 0, 10);
         std::string dir = argv[5];
@@ -578,7 +677,8 @@ int main(int argc, char** argv)
         if (chdir(dir.c_str()) != 0) return 2;
         g_props = mode[0] == 'r' ? "C14" : "C15";
         for (unsigned long c = first; c < first + count; ++c) {
-            if (mode[0] == 'r') run_raw_case(seed, c, dir); else if (mode[4]) run_tiffbig_case(seed, c, dir); else run_tiff_case(seed, c, dir);
+            if (mode[0] == 'r') { if (mode[3]) run_rawbig_case(seed, c, dir); else run_raw_case(seed, c, dir); }
+            else if (mode[4]) run_tiffbig_case(seed, c, dir); else run_tiff_case(seed, c, dir);
             if (g_nviol > 20) break;
         }
         printf("S {\"mode\":\"%s\",\"cases\":%lu,\"violations\":%lu,\"cycles\":%lu,\"appends\":%lu,\"frames\":%lu,\"bytes\":%lu,\"files\":%lu,"
